@@ -34,7 +34,7 @@ def run(c):
     c.prove("SH.Props.C01", extra_files=["SH/Model/Delivery.lean", "SH/Gen/C01.lean"])
     drv = c.driver(DRIVER)
     if binary and drv:
-        rc, out = c.go_run(binary, [f"-n={c.n(240, 3000)}"], timeout=1500)
+        rc, out = c.go_run(binary, [f"-n={c.n(240, 2400)}"], timeout=1500)
         c.harness_ok(rc, out, "verif-c01")
         c.correspond(out, drv)
         rc, out = c.go_run(binary, ["-mode=conveyor", f"-n={c.n(1, 3)}"], timeout=300)
